@@ -318,7 +318,27 @@ def report(prop, tier, seed, t0, contracts, results, lemma_recs, validations, sp
                     violations.append((o, path, True))
                     break
             else:
-                if os.path.exists(path):
+                # the contract's own scenarios hold: the scenarios attached to the property as a whole (round trips through several
+                # functions) get their turn
+                pps = spec.get("property_probes")
+                hit = False
+                if pps:
+                    import importlib
+                    mod, attr = pps.split(":")
+                    for pc, pjudge in getattr(importlib.import_module(mod), attr)():
+                        rp["call"] = pc
+                        json.dump(rp, open(path, "w"), indent=1)
+                        nat = RP.run_native(path)
+                        verdict, detail = pjudge(nat)
+                        if verdict == "violates":
+                            rp.update({"native_outcome": nat, "replay_verdict": verdict, "replay_detail": detail, "failing_input_found": True})
+                            json.dump(rp, open(path, "w"), indent=1)
+                            o = {"contract": r["contract"], "case": r["case"], "name": "property-level-probe-scenario-on-the-real-code (obligations not generated)",
+                                 "where": "", "verdict": "failed", "backend": "native-probe"}
+                            violations.append((o, path, True))
+                            hit = True
+                            break
+                if not hit and os.path.exists(path):
                     os.remove(path)
         except Exception as e:
             rp["probe_error"] = f"{type(e).__name__}: {e}"
